@@ -13,8 +13,6 @@ FAM_H = [
     lambda: Gamma("bigint", "int"),  # equal but not identical label objects
     lambda: Gamma("mixed", "int"),   # labels that cannot be ordered against each other
     lambda: Gamma("obj", "int"),     # labels hashable by identity only
-    lambda: Gamma("negint", "hugeint"),  # hash(-1) == hash(-2); ids beyond 2**53
-    lambda: Gamma("ints", "npuint8"),    # one-byte numpy ids up to 255
 ]
 
 HG_KIT = core.register(core.Kit(
